@@ -2,13 +2,15 @@
    1   proportion: totalGuarantee and, per queue with jobs, realCapability / request /
        allocated (all exact: integer inputs, no division)
    2   capacity (flat queues): totalGuarantee, realCapability, deserved, request, allocated
+   3   capacity with hierarchy: request / allocated of the leaf queues
    110 proportion, float part: input of 1 followed by the deserved vectors (scaled 10^6)
        and overused answers the Go plugin produced; answers [1] when the exact model
        agrees within 1e-9 relative (+2e-6 absolute for the scaling), or when the case is
        not robust (some comparison of the loop is within 1e-6 of its boundary, a
        cancellation after an inexact division, more than 30 rounds)
    120 diagnostics: [robust; done; rounds]
-   101-104 laws on the Go results *)
+   101-106 laws on the Go results (105: realCapability reserves the other queues' guarantees,
+       106: the same per sibling group of the hierarchical capacity plugin) *)
 From Coq Require Import QArith ZArith List Bool.
 From V Require Import Base.Codec C12.Model C12.Laws.
 Import ListNotations.
@@ -28,11 +30,13 @@ Definition dTask (D : nat) : dec task :=
 
 Definition dSpec (D : nat) : dec qspec :=
   let* w := dZ in
+  let* _state := dZ in     (* Queue.Status.State: read by nothing in the anchored code *)
   let* hc := dBool in
   let* cap := dRep D dCellI in
   let* g := dRep D dCellI in
   let* dsv := dRep D dCellI in
   let* hj := dBool in
+  let* _ph1 := dZ in let* _ph2 := dZ in   (* PodGroup phases of the queue's one or two jobs *)
   let* ts := dList (dTask D) in
   ret (mkS w (if hc then Some cap else None) g dsv hj ts).
 
@@ -74,6 +78,18 @@ Definition out_capacity (D : nat) (total : vec) (ss : list qspec) : list Z :=
       let a := attr_of total tg s in
       let '(rc, d) := capacity_des total tg s in
       tag k ++ eVecX D rc ++ eVecX D d ++ eVecX D (q_req a) ++ eVecX D (q_alloc a)
+    else []) (number 1 ss).
+
+(* hierarchical capacity (selector 3): queues 1 and 2 of the input are intermediate queues
+   (children of root, never holding jobs), queue k >= 3 is a leaf under queue 1 (k odd) or 2
+   (k even).  Only request/allocated of the leaves are modelled (capacity.go 1257-1271); the
+   realCapability chain of checkHierarchicalQueue is judged by law 106 on the Go results. *)
+Definition out_hier (D : nat) (total : vec) (ss : list qspec) : list Z :=
+  flat_map (fun ks : Z * qspec =>
+    let (k, s) := ks in
+    if (3 <=? k) && s_jobs s then
+      let a := attr_of total [] s in
+      tag k ++ eVecX D (q_req a) ++ eVecX D (q_alloc a)
     else []) (number 1 ss).
 
 (* what the Go side observed per queue: deserved (scaled) and the overused answer *)
@@ -119,11 +135,12 @@ Definition dObs (D : nat) : dec obs :=
   let* de := dRep D dCellS in
   let* ov := dBool in
   ret (mkO w g rc rq al de ov).
-Definition dLawIn : dec (nat * vec * list obs) :=
+Definition dLawIn : dec (nat * vec * vec * list obs) :=
   let* D := dNat in
   let* total := dRep D dCellS in
+  let* tg := dRep D dCellS in
   let* os := dList (dObs D) in
-  ret (D, total, os).
+  ret (D, total, tg, os).
 
 Definition entry (sel : Z) (toks : list Z) : list Z :=
   match sel with
@@ -131,6 +148,8 @@ Definition entry (sel : Z) (toks : list Z) : list Z :=
          | Some (D, total, ss) => out_proportion D total ss | None => bad_input end
   | 2 => match run_dec dInput toks with
          | Some (D, total, ss) => out_capacity D total ss | None => bad_input end
+  | 3 => match run_dec dInput toks with
+         | Some (D, total, ss) => out_hier D total ss | None => bad_input end
   | 110 => match run_dec (let* i := dInput in
                           let '(D, total, ss) := i in
                           let* go := dRep (length (filter s_jobs ss)) (dGoQ D) in
@@ -139,12 +158,18 @@ Definition entry (sel : Z) (toks : list Z) : list Z :=
   | 120 => match run_dec dInput toks with
            | Some (D, total, ss) => diag D total ss | None => bad_input end
   | 101 => match run_dec dLawIn toks with
-           | Some (D, _, os) => eBool (law_bounds D os) | None => bad_input end
+           | Some (D, _, _, os) => eBool (law_bounds D os) | None => bad_input end
   | 102 => match run_dec dLawIn toks with
-           | Some (D, total, os) => eBool (law_sum D total os) | None => bad_input end
+           | Some (D, total, _, os) => eBool (law_sum D total os) | None => bad_input end
   | 103 => match run_dec dLawIn toks with
-           | Some (D, _, os) => eBool (law_overused D os) | None => bad_input end
+           | Some (D, _, _, os) => eBool (law_overused D os) | None => bad_input end
   | 104 => match run_dec dLawIn toks with
-           | Some (D, _, os) => eBool (law_weight D os) | None => bad_input end
+           | Some (D, _, _, os) => eBool (law_weight D os) | None => bad_input end
+  | 105 => match run_dec dLawIn toks with
+           | Some (D, total, tg, os) => eBool (law_reserve false D total tg os) | None => bad_input end
+  | 106 => match run_dec dLawIn toks with
+           | Some (D, total, tg, os) => eBool (law_reserve true D total tg os && forallb (fun o =>
+                 alldims D (fun j => Qle_bool (val0 (cnth (o_gua o) j)) (val0 (cnth (o_des o) j) + slack))) os)
+           | None => bad_input end
   | _ => bad_input
   end.
